@@ -7,6 +7,29 @@ def hx(s):
     b = s.encode('utf-8') if isinstance(s, str) else bytes(s)
     return b.hex() if b else '-'
 
+# literals found in source lines that differ from the recorded tree (tools/fingerprint.py); empty on the recorded tree
+EXTRA = dict(chars=[], strs=[], nums=[])
+def set_extra(lits):
+    chars = [l for l in lits if len(l) == 1 and not l.startswith('#')]
+    strs = [l for l in lits if len(l) > 1 and not l.startswith('#')]
+    nums = sorted({int(l[1:]) for l in lits if l.startswith('#') and l[1:].isdigit() and 0 < int(l[1:]) <= 64})
+    EXTRA.update(chars=chars[:12], strs=strs[:12], nums=nums[:6])
+    for c in EXTRA['chars']:
+        for pool in (POOL_ASCII, QK, CALGS, VALS, QKEYS):
+            if c not in pool: pool.append(c)
+        if c.isalnum():
+            for k in (c + 'one', 'si' + c + 'e', c * 2):
+                for pool in (QK, QKEYS):
+                    if k not in pool: pool.append(k)
+    for st in EXTRA['strs']:
+        for pool in (ODD, CALGS, VALS, GTYPES, QK, QKEYS):
+            if st not in pool: pool.append(st)
+    for n in EXTRA['nums']:
+        for st in ('a' * n, 'a' * (n + 1), 'é' * n, 'pkg:'[:n]):
+            if st and st not in ODD: ODD.append(st)
+    for fam, (prefix, alpha) in TOK_FAMILIES.items():
+        for t in (EXTRA['chars'] + [x for x in EXTRA['strs'] if len(x) <= 4])[:6]:
+            if t not in alpha: alpha.append(t)
 SEVEN = ['cargo', 'gem', 'golang', 'maven', 'npm', 'nuget', 'pypi']
 OTHER_TYPES = ['alpm', 'apk', 'bitbucket', 'cocoapods', 'composer', 'conan', 'conda', 'cran', 'deb', 'docker', 'generic',
                'github', 'hackage', 'hex', 'huggingface', 'mlflow', 'oci', 'pub', 'qpkg', 'rpm', 'swid', 'swift', 'bitnami']
@@ -32,6 +55,22 @@ def gen_tok(k, kinds=('g',), families=None, rng=None, cap=None):
                 for kind in kinds:
                     yield f'P {kind} {hx(s)}'
 
+# ------------------------------------------------------------------ G-utf8: percent-encoded byte sequences over the boundary bytes of UTF-8 (Unicode table 3-7), exhaustive
+UTF8_BOUNDARY = [0x00, 0x01, 0x2F, 0x41, 0x7F, 0x80, 0x8F, 0x90, 0x9F, 0xA0, 0xBF, 0xC0, 0xC1, 0xC2, 0xDF, 0xE0, 0xE1, 0xEC, 0xED, 0xEE, 0xEF, 0xF0, 0xF1, 0xF3, 0xF4, 0xF5, 0xFF]
+def gen_utf8(maxlen, kinds=('g',)):
+    for n in range(1, maxlen + 1):
+        for seq in itertools.product(UTF8_BOUNDARY, repeat=n):
+            e = ''.join('%%%02X' % b for b in seq)
+            pos = n % 4
+            s = ['pkg:t/' + e, 'pkg:t/n@' + e, 'pkg:t/n?k=' + e, 'pkg:t/n#' + e][pos] if n > 2 else 'pkg:t/' + e
+            for k in kinds: yield f'P {k} {hx(s)}'
+            if n <= 2:
+                for k in kinds:
+                    yield f'P {k} {hx("pkg:t/" + e + "/n")}'
+                    yield f'P {k} {hx("pkg:t/n@" + e)}'
+                    yield f'P {k} {hx("pkg:t/n?k=" + e)}'
+                    yield f'P {k} {hx("pkg:t/n#" + e)}'
+
 # ------------------------------------------------------------------ random strings
 POOL_ASCII = list("abcXYZ019") + list("-._~!$'()*,;:") + list(" \"<>%@?#`{}/+&=|\\^[]") + ['\t', '\x01', '\x7f']
 POOL_UNI = ['é', 'Æ', 'ß', 'ǅ', 'İ', '日', '𝄞', '́', 'K', 'ſ', 'Σ', 'ΑΣ', 'ς']
@@ -48,6 +87,10 @@ def rstr(rng, lo=1, hi=6, exclude=''):
             out.append(c)
     return ''.join(out)
 def rkey(rng):
+    ex = [c for c in EXTRA['chars'] if c.isalnum() and c.isascii()]
+    if ex and rng.random() < 0.25:
+        c = rng.choice(ex)
+        return rng.choice([c, c + 'one', 'si' + c + 'e', 'a' + c])
     first = rng.choice('abcdkqxyz')
     rest = ''.join(rng.choice('abcxyz019._-') for _ in range(rng.randint(0, 4)))
     return first + rest
@@ -343,7 +386,7 @@ def gen_names(rng, tier):
         for ty, idx in (('nuget', 5), ('pypi', 6)) if light else (('nuget', 5), ('pypi', 6), ('cargo', 0)):
             yield f'P t {hx("pkg:" + ty + "/" + e)}'
             if not light: yield f'B t {idx} {hx(n)} -'
-    alpha = ['a', 'A', '1', '-', '_', '.', 'Æ', 'ǅ']
+    alpha = ['a', 'A', '1', '-', '_', '.', 'Æ', 'ǅ'] + [c for c in EXTRA['chars'] if c not in 'aA1-_.'][:2]
     for n in ['ΟΔΟΣ', 'ΑΣ', 'aΣ', 'Σ', 'ΑΣ-Σ', 'ΑΣa', 'AÆ', 'MyÆsir.Core', 'aΣ.bΣ', 'İ', 'ẞ', 'ſK']: yield from cases(n)
     for k in range(1, 5 if tier == 'quick' else 6):
         for w in itertools.product(alpha, repeat=k):
@@ -483,7 +526,13 @@ def gen_pt(rng, n, maxlen=3):
     for k in range(0, maxlen + 1):
         for w in itertools.product(letters, repeat=k):
             yield 'T ' + hx(''.join(w))
-    edits = list("abcegilmnoprtuvysk") + ['ſ', 'K', 'ı', 'İ', ' ', '-', '́', 'ｍ']
+    edits = list("abcegilmnoprtuvyskx2.") + ['ſ', 'K', 'ı', 'İ', ' ', '-', '́', 'ｍ'] + EXTRA['chars']
+    for name in SEVEN:
+        for suf in ['ci', '.org', 'xx', name, ' x', '\t', '\n'] + EXTRA['strs']:
+            yield 'T ' + hx(name + suf); yield 'T ' + hx(name.upper() + suf); yield 'T ' + hx(suf + name)
+        for ln in EXTRA['nums']:
+            yield 'T ' + hx(name[:ln]); yield 'T ' + hx((name * 3)[:ln]); yield 'T ' + hx((name * 3)[:ln + 1]); yield 'T ' + hx(name + 'x' * max(0, ln + 1 - len(name)))
+    for c in ['ｃａｒｇｏ', 'ｎpm', 'pypｉ', 'ţargo', 'nuŧet', 'gｅm', 'ɡem', 'ｍaven', 'сargo', 'nρm']: yield 'T ' + hx(c)
     for name in SEVEN:
         for i in range(len(name) + 1):
             for e in edits:
